@@ -56,6 +56,13 @@ C02Domain(c) == /\ c.fns = "ZM-VFNS" /\ c.Z = c.A
                 /\ (c.ew.proc # "CC" /\ IAbs(c.ew.proj) = 12 => RIsZero(c.ew.pol))
                 /\ (c.ew.proc = "CC" => c.ew.pos = 0)
                 /\ Supported(c)
+\* a neutrino beam couples through the Z only: every LO weight is (Q2/(Q2+MZ2))^2 times the weight at ratio one, on both sides
+\* (a degree-2 identity in r: holding at the four lattice ratios it holds for every r - used for ratios too small for 32 bit)
+C02_NeutrinoScaling(c) ==
+  (C02Domain(c) /\ c.ew.proc = "NC" /\ IAbs(c.ew.proj) = 12) =>
+     LET c1 == WithEw(c, "r", One) a == AG(c) a1 == AG(c1) r2 == RSq(c.ew.r) IN
+     \A p \in Pids : /\ TextbookLO(c, p) = RMul(r2, TextbookLO(c1, p))
+                     /\ LOWeightOf(a, c, p) = RMul(r2, LOWeightOf(a1, c1, p))
 C02_LOIsPartonModel(c) == C02Domain(c) => LET a == AG(c) IN \A p \in Pids : LOWeightOf(a, c, p) = TextbookLO(c, p)
 
 \* ------------------------------------------------------------------ C07  additivity
